@@ -18,10 +18,11 @@ VARIABLES geo,      \* [dfdt10 : ten times df*dt (so tenths are representable), 
           est,      \* <<"zero">> | <<"param", kind, mean, std>> | <<"estimated">>
           content,  \* "empty" | "noise" | "mixed"
           own, bg,  \* voltage side: own[a][p], bg[p] = variance (integer) of the stream's noise bookkeeping
+          xown, xbg, \* variance of user-defined sources the bookkeeping does not know about until update_noise()
           hist
 
-vars == <<geo, est, content, own, bg, hist>>
-View == <<geo, est, content, own, bg>>
+vars == <<geo, est, content, own, bg, xown, xbg, hist>>
+View == <<geo, est, content, own, bg, xown, xbg>>
 
 (* k = 4 * round(df * dt); both neighbours at an exact half *)
 KSet(g) == LET f == g.dfdt10 \div 10  r == g.dfdt10 % 10 IN
@@ -34,10 +35,12 @@ Stds == {2, 5}
 Init == /\ geo \in [dfdt10 : {10, 14, 15, 16, 20, 25, 27, 510}, T : {4, 16}, dt2 : {2, 3, 4}]
         /\ est = <<"zero">> /\ content = "empty"
         /\ own = [a \in 1..2 |-> [p \in 1..2 |-> 0]] /\ bg = [p \in 1..2 |-> 0]
+        /\ xown = [a \in 1..2 |-> [p \in 1..2 |-> 0]] /\ xbg = [p \in 1..2 |-> 0]
         /\ hist = <<>>
 
 Active == Len(hist) < MaxOps
 Log(a) == hist' = Append(hist, [act |-> a, est |-> est', content |-> content', own |-> own', bg |-> bg',
+                                xown |-> xown', xbg |-> xbg',
                                 total |-> [x \in 1..2 |-> [p \in 1..2 |-> own'[x][p] + bg'[p]]]])
 
 (* the first noise on an empty (zero-estimate) frame sets the estimates to the requested parameters, otherwise re-estimate *)
@@ -45,7 +48,7 @@ NoiseStep(kind, m, s, src) ==
     /\ Active
     /\ est' = IF est = <<"zero">> THEN <<"param", kind, m, s>> ELSE <<"estimated">>
     /\ content' = IF content = "empty" THEN "noise" ELSE content
-    /\ UNCHANGED <<geo, own, bg>>
+    /\ UNCHANGED <<geo, own, bg, xown, xbg>>
     /\ Log([name |-> src, kind |-> kind, mean |-> m, std |-> s])
 
 AddNoise(kind, m, s) == NoiseStep(kind, m, s, "AddNoise")
@@ -54,23 +57,38 @@ AddNoiseFromObs(kind, share, tables) ==
     /\ Active
     /\ est' = IF est = <<"zero">> THEN <<"param", kind, -1, -1>> ELSE <<"estimated">>      \* -1: whatever the tables gave
     /\ content' = IF content = "empty" THEN "noise" ELSE content
-    /\ UNCHANGED <<geo, own, bg>>
+    /\ UNCHANGED <<geo, own, bg, xown, xbg>>
     /\ Log([name |-> "AddNoiseFromObs", kind |-> kind, share |-> share, tables |-> tables])
 
-ZeroData == /\ Active /\ est' = <<"zero">> /\ content' = "empty" /\ UNCHANGED <<geo, own, bg>> /\ Log([name |-> "ZeroData"])
+ZeroData == /\ Active /\ est' = <<"zero">> /\ content' = "empty" /\ UNCHANGED <<geo, own, bg, xown, xbg>> /\ Log([name |-> "ZeroData"])
 AddSignal == /\ Active /\ est' = est /\ content' = (IF content = "empty" THEN "mixed" ELSE content)
-             /\ UNCHANGED <<geo, own, bg>> /\ Log([name |-> "AddSignal"])
+             /\ UNCHANGED <<geo, own, bg, xown, xbg>> /\ Log([name |-> "AddSignal"])
 (* intensity(snr) = snr * noise_std / sqrt(T) and its inverse: queries *)
-QuerySnr == /\ Active /\ UNCHANGED <<geo, est, content, own, bg>> /\ Log([name |-> "QuerySnr", snr |-> 30])
+QuerySnr == /\ Active /\ UNCHANGED <<geo, est, content, own, bg, xown, xbg>> /\ Log([name |-> "QuerySnr", snr |-> 30])
 
 (* voltage side *)
-StreamAddNoise(a, p, s) == /\ Active /\ own' = [own EXCEPT ![a][p] = @ + s * s] /\ UNCHANGED <<geo, est, content, bg>>
+StreamAddNoise(a, p, s) == /\ Active /\ own' = [own EXCEPT ![a][p] = @ + s * s] /\ UNCHANGED <<geo, est, content, bg, xown, xbg>>
                            /\ Log([name |-> "StreamAddNoise", a |-> a, p |-> p, std |-> s])
-BgAddNoise(p, s) == /\ Active /\ bg' = [bg EXCEPT ![p] = @ + s * s] /\ UNCHANGED <<geo, est, content, own>>
+BgAddNoise(p, s) == /\ Active /\ bg' = [bg EXCEPT ![p] = @ + s * s] /\ UNCHANGED <<geo, est, content, own, xown, xbg>>
                     /\ Log([name |-> "BgAddNoise", p |-> p, std |-> s])
 
+(* a user-defined source (std s) is not book-kept; update_noise() re-estimates the deviation from samples, after which
+   further add_noise calls add in quadrature to the refreshed value *)
+StreamAddSource(a, p, s) == /\ Active /\ xown' = [xown EXCEPT ![a][p] = @ + s * s] /\ UNCHANGED <<geo, est, content, own, bg, xbg>>
+                            /\ Log([name |-> "StreamAddSource", a |-> a, p |-> p, std |-> s])
+StreamUpdateNoise(a, p) == /\ Active /\ own[a][p] + xown[a][p] > 0
+                           /\ own' = [own EXCEPT ![a][p] = @ + xown[a][p]] /\ xown' = [xown EXCEPT ![a][p] = 0]
+                           /\ UNCHANGED <<geo, est, content, bg, xbg>>
+                           /\ Log([name |-> "StreamUpdateNoise", a |-> a, p |-> p])
+BgAddSource(p, s) == /\ Active /\ xbg' = [xbg EXCEPT ![p] = @ + s * s] /\ UNCHANGED <<geo, est, content, own, bg, xown>>
+                     /\ Log([name |-> "BgAddSource", p |-> p, std |-> s])
+BgUpdateNoise(p) == /\ Active /\ bg[p] + xbg[p] > 0
+                    /\ bg' = [bg EXCEPT ![p] = @ + xbg[p]] /\ xbg' = [xbg EXCEPT ![p] = 0]
+                    /\ UNCHANGED <<geo, est, content, own, xown>>
+                    /\ Log([name |-> "BgUpdateNoise", p |-> p])
+
 Done == /\ EmitOn /\ Len(hist) = MaxOps /\ PrintT(ToJson([geo |-> geo, k |-> KSet(geo), steps |-> hist]))
-        /\ hist' = Append(hist, [act |-> [name |-> "Done"]]) /\ UNCHANGED <<geo, est, content, own, bg>>
+        /\ hist' = Append(hist, [act |-> [name |-> "Done"]]) /\ UNCHANGED <<geo, est, content, own, bg, xown, xbg>>
 
 Next == \/ Done
         \/ \E kind \in Kinds, m \in Means, s \in Stds : AddNoise(kind, m, s)
@@ -78,6 +96,10 @@ Next == \/ Done
         \/ ZeroData \/ AddSignal \/ QuerySnr
         \/ \E a \in 1..2, p \in 1..2, s \in {3, 4, 12} : StreamAddNoise(a, p, s)
         \/ \E p \in 1..2, s \in {3, 4, 5} : BgAddNoise(p, s)
+        \/ \E a \in 1..2, p \in 1..2, s \in {6} : StreamAddSource(a, p, s)
+        \/ \E a \in 1..2, p \in 1..2 : StreamUpdateNoise(a, p)
+        \/ \E p \in 1..2, s \in {2} : BgAddSource(p, s)
+        \/ \E p \in 1..2 : BgUpdateNoise(p)
 Spec == Init /\ [][Next]_vars
 
 -----------------------------------------------------------------------------
@@ -89,5 +111,14 @@ ZeroDataResets == [][(hist' # hist /\ hist'[Len(hist')].act.name = "ZeroData") =
 SignalLeavesEstimate == [][(hist' # hist /\ hist'[Len(hist')].act.name \in {"AddSignal", "QuerySnr"}) => est' = est]_vars
 (* variances add: the total of a stream is its own plus the shared background of its polarisation, for every antenna alike *)
 QuadratureSum == \A p \in 1..2 : \A a, b \in 1..2 : (own[a][p] + bg[p]) - (own[b][p] + bg[p]) = own[a][p] - own[b][p]
+(* the realised variance of a stream (booked + not yet booked) only ever grows by the variance of what was added;
+   update_noise() moves variance from "unknown" to "booked" without changing the sum *)
+Realised(a, p) == own[a][p] + xown[a][p] + bg[p] + xbg[p]
+UpdateKeepsRealised ==
+    [][(hist' # hist /\ hist'[Len(hist')].act.name \in {"StreamUpdateNoise", "BgUpdateNoise"}) =>
+         \A a \in 1..2, p \in 1..2 : own'[a][p] + xown'[a][p] + bg'[p] + xbg'[p] = Realised(a, p)]_vars
+AddNoiseAddsInQuadrature ==
+    [][(hist' # hist /\ hist'[Len(hist')].act.name = "StreamAddNoise") =>
+         LET x == hist'[Len(hist')].act IN own'[x.a][x.p] = own[x.a][x.p] + x.std * x.std]_vars
 KIsMultipleOfFour == \A k \in KSet(geo) : k % 4 = 0 /\ k >= 4
 =============================================================================
